@@ -210,6 +210,33 @@ def task_laws():
             law(f"[{tag}] transform_solution: one entry per variable holding its decoded slice", ok, f"{d!r}")
         except Exception as ex:
             law(f"[{tag}] transform_solution", False, f"{type(ex).__name__}: {ex}")
+    # several tasks with the same layout (kinds, names, sizes) and different domains in one process: each answers for itself
+    def layout(k):
+        return [ContinuousVariable(name="c", lower_bound=-1.0 - k, upper_bound=2.0 + 3 * k),
+                DiscreteMultiVariable(name="dm", choices=[list(range(2 + k)), ["u", "v", "w"][: 2 + (k % 2)]]),
+                ContinuousMultiVariable(name="cm", lower_bounds=[0.0 + k, -3.0], upper_bounds=[1.0 + 2 * k, 0.5 * k]),
+                DiscreteVariable(name="d1", choices=["only"] if k == 0 else ["only", "two"][: 1 + (k % 2)])]
+    tasks_ = [T(variables=layout(k)) for k in range(3)]
+    for k, tk in enumerate(tasks_):
+        own = []
+        for v in tk.variables:
+            own += (v.get() if v.has_children() else [v.get()])
+        fl = tk.get_variables()
+        law(f"[same layout #{k}] get_variables returns this task's own variables", len(fl) == len(own) and all(a is b for a, b in zip(fl, own)))
+        lb, ub = tk.get_bounds()
+        elb, eub = [], []
+        for v in tk.variables:
+            b = v.get_bounds()
+            if v.has_children():
+                elb += list(b[0]); eub += list(b[1])
+            else:
+                elb.append(b[0]); eub.append(b[1])
+        law(f"[same layout #{k}] get_bounds equals this task's own bounds, exactly", list(lb) == elb and list(ub) == eub, f"{list(lb)}/{list(ub)} vs {elb}/{eub}")
+        for raw in ([99.0] * tk.space_dimension, [-99.0] * tk.space_dimension):
+            c = tk.correct_solution(raw)
+            exp = [fv.correct(x) for fv, x in zip(own, raw)]
+            law(f"[same layout #{k}] correct_solution uses this task's own domains", c == exp, f"{c!r} vs {exp!r}")
+            law(f"[same layout #{k}] corrected coordinates lie within this task's bounds", all(l <= x <= u for x, l, u in zip(c, elb, eub)), f"{c!r}")
     # single permutation variable
     pv = PermutationVariable(name="p", items=["a", "b", "c", "d"])
     t = T(variables=[pv])
